@@ -683,5 +683,5 @@ MANIFEST = {
              "use the image cut at the CSF; IVT pointers and segment offsets are computed by the same formulas on the build and parse side; AES-CCM parameters and the MAC record are bound "
              "to the segment's DEK/nonce/MAC length; all HAB signing goes through the SHA-256 pinned provider. Signature validity and decryption are not executed.",
     "note": "Trusted: CMS/X.509/AES-CCM primitives, struct. Frozen tables: 14 wire pairs, 6 segment wrappers.",
-    "technique": "static analysis: AST pack/unpack symmetry, byte-position and bit-provenance comparison, sibling-formula comparison, who-may-call over the resolved functions, abstract evaluation of guards on finite grids, twin computations compared as final symbolic values on the paths, attribute stores along symbolic paths",
+    "technique": "static analysis: AST pack/unpack symmetry, byte-position and bit-provenance comparison, sibling-formula comparison, who-may-call over the resolved functions, abstract evaluation of guards on finite grids, twin computations compared as final symbolic values on the paths, attribute stores along symbolic paths, export/parse round trip of the HAB command and secret classes interpreted on model objects (E19), XMCD segment window by interpretation, key-type classification thresholds evaluated on the supported signature lengths",
 }
